@@ -328,14 +328,19 @@ impl Node {
     ) -> std::result::Result<(), rusqlite::Error> {
         static UPDATE_FTS_QUERY: &str = "INSERT INTO _node_fts (rowid, text) VALUES (?, ?)";
         if let Some(id) = self._local_id {
-            if index {
-                if let Some(previous) = old_fts_str {
+            //the previous text is removed when the row is in the index, and only then, whatever `index` is now:
+            //a 'delete' for a row that is not there corrupts the index, entries left behind are found for ever
+            if let Some(previous) = old_fts_str {
+                let mut indexed_stmt =
+                    conn.prepare_cached("SELECT 1 FROM _node_fts WHERE rowid=?")?;
+                if indexed_stmt.exists([id])? {
                     let mut delete_fts_stmt = conn.prepare_cached(
                         "INSERT INTO _node_fts (_node_fts, rowid, text) VALUES('delete', ?, ?)",
                     )?;
                     delete_fts_stmt.execute((id, previous))?;
                 }
-
+            }
+            if index {
                 if let Some(current) = node_fts_str {
                     let mut insert_fts_stmt = conn.prepare_cached(UPDATE_FTS_QUERY)?;
                     insert_fts_stmt.execute((id, current))?;
